@@ -1,3 +1,4 @@
+import codecs
 import os
 import sys
 import time
@@ -815,6 +816,17 @@ class spawn(SpawnBase):
         '''This is used by the interact() method.
         '''
 
+        if self.encoding is not None:
+            # The data copied here is bytes; in unicode mode the log files
+            # get text, like everywhere else in the API.
+            decoders = dict(
+                (direction, codecs.getincrementaldecoder(self.encoding)('replace'))
+                for direction in ('read', 'send'))
+            def log(data, direction):
+                self._log(decoders[direction].decode(data), direction)
+        else:
+            log = self._log
+
         while self.isalive():
             if self.use_poll:
                 r = poll_ignore_interrupts([self.child_fd, self.STDIN_FILENO])
@@ -835,7 +847,7 @@ class spawn(SpawnBase):
                     break
                 if output_filter:
                     data = output_filter(data)
-                self._log(data, 'read')
+                log(data, 'read')
                 os.write(self.STDOUT_FILENO, data)
             if self.STDIN_FILENO in r:
                 data = self.__interact_read(self.STDIN_FILENO)
@@ -847,10 +859,10 @@ class spawn(SpawnBase):
                 if i != -1:
                     data = data[:i]
                     if data:
-                        self._log(data, 'send')
+                        log(data, 'send')
                     self.__interact_writen(self.child_fd, data)
                     break
-                self._log(data, 'send')
+                log(data, 'send')
                 self.__interact_writen(self.child_fd, data)
 
 
